@@ -360,9 +360,9 @@ var c09ArgKinds = []c09ArgKind{
 	{"ordered-by", []string{"ordered-by"}, []string{"user", "system"}, func(s string) string { return verdict(s == "user" || s == "system") }},
 	{"deviate", []string{"deviate"}, []string{"add", "delete", "replace", "not-supported"},
 		func(s string) string { return verdict(s == "add" || s == "delete" || s == "replace" || s == "not-supported") }},
-	{"range", []string{"range"}, []string{"1..2", "1", "min..max", "1..5|7|9..max", "-5..5", "0.5..1.5", "1 .. 2 | 4", "min..0"},
+	{"range", []string{"range"}, []string{"1..2", "1", "min..max", "1..5|7|9..max", "-5..5", "0.5..1.5", "1 .. 2 | 4", "min..0", "1..5 |\r\n 7", "1..2\r\n| 4..5\n| 9"},
 		func(s string) string { return rangeVerdict(s, yang.IsRangeArg(s)) }},
-	{"length", []string{"length"}, []string{"1..2", "0", "min..max", "1..5|7|9..max", "1 .. 2 | 4"},
+	{"length", []string{"length"}, []string{"1..2", "0", "min..max", "1..5|7|9..max", "1 .. 2 | 4", "1..5 |\r\n 7", "1 |\r\n\t2"},
 		func(s string) string {
 			if hugeDigits.MatchString(s) {
 				return "unasserted"
